@@ -502,5 +502,52 @@ def r10_init(F, R):
     from . import c12
     c12.r8_init(F, R)
 
+def r11(F, R):
+    """The documented entry points reach the verdict: `World::run` / `World::filter_run` go through `run_and_exit` /
+    `filter_run_and_exit` (the variants that turn a failed run into a panic / non-zero exit) on `Self::cucumber()`, which registers
+    `Self::collection()`; `Cucumber::run_and_exit` is `filter_run_and_exit` and `Cucumber::run` is `filter_run`, each with a filter
+    that accepts every scenario (constant `true`)."""
+    def last(t):
+        return re.sub(r"<[^<>]*(<[^<>]*(<[^<>]*>[^<>]*)*>[^<>]*)*>", "", callee_path(t) or "").replace("::::", "::").rsplit("::", 1)[-1]
+    prov = {b.name.rsplit("::", 1)[-1]: b for b in F.crate_bodies() if (b.impl or {}).get("trait") == "World" and (b.impl or {}).get("provided")}
+    for name, want in (("run", "run_and_exit"), ("filter_run", "filter_run_and_exit")):
+        b = prov.get(name)
+        if b is None:
+            raise Unverifiable(f"World::{name}")
+        calls = [last(t) for nb in F.nested(b) for _, t in nb.calls() if (callee_path(t) or "").startswith("cucumber::Cucumber")]
+        base = [last(t) for nb in F.nested(b) for _, t in nb.calls() if (callee_path(t) or "") == "World::cucumber"]
+        R.check(calls == [want] and base == ["cucumber"], f"entry/World::{name}", b, f"Self::cucumber().{want}(..)",
+                f"`World::{name}` runs {calls} on {base or 'another pipeline'}: a failed run is not turned into a failing process (expected `Self::cucumber().{want}`)")
+    b = prov.get("cucumber")
+    if b is None:
+        raise Unverifiable("World::cucumber")
+    names = [last(t) for _, t in b.calls()]
+    st = [(s_, t) for s_, t in b.calls() if last(t) == "steps"]
+    ok = len(st) == 1 and any(callee_path(ct) == "World::collection" for _, ct in A.slice_back(b, st[0][1]["args"][1:]).calls)
+    R.check(ok, "entry/World::cucumber", b, "Cucumber::new().steps(Self::collection())", f"`World::cucumber()` does not register `Self::collection()` (calls {names}): every step would be reported as skipped")
+    for name, want in (("run_and_exit", "filter_run_and_exit"), ("run", "filter_run")):
+        bs = [x for x in F.crate_bodies() if (x.impl or {}).get("self_adt") == "cucumber::Cucumber" and not (x.impl or {}).get("trait") and re.sub(r"<.*>$", "", x.name).rsplit("::", 1)[-1] == name and x.kind == "AssocFn"]
+        if len(bs) != 1:
+            raise Unverifiable(f"Cucumber::{name}: {len(bs)}")
+        fam = F.nested(bs[0])
+        cs = [(nb, s_, t) for nb in fam for s_, t in nb.calls() if last(t) == want and (callee_path(t) or "").startswith("cucumber::Cucumber")]
+        ok = len(cs) == 1
+        why = f"{len(cs)} calls of {want}"
+        if ok:
+            nb, s_, t = cs[0]
+            kb = A.closure_of_operand(F, nb, t["args"][-1])
+            consts = set()
+            if kb is not None:
+                for _, st_ in kb.assigns(lambda st_: st_["pl"]["l"] == 0 and not st_["pl"]["p"]):
+                    if st_["rv"]["k"] == "use" and st_["rv"]["op"].get("k") == "const":
+                        consts.add(st_["rv"]["op"].get("val"))
+                    else:
+                        consts.add("?")
+            ok = kb is not None and consts <= {"true", "1"} and bool(consts) and not list(kb.calls())
+            why = f"the filter it passes returns {sorted(consts) or 'not a closure'}"
+        R.check(ok, f"entry/Cucumber::{name}", bs[0], f"{want}(input, |_, _, _| true)", f"`Cucumber::{name}` is not `{want}` with an accept-everything filter: {why}")
+    R.floor(5)
+
+
 RULES = [("R8", r8, _LIB), ("R1", r1, _LIB), ("R2", r2, _LIB), ("R3", r3, _LIB), ("R4", r4, _LIB), ("R5", r5, ["all", "libtest"]),
-         ("R6", r6, _LIB), ("R7", r7, _LIB), ("R9", r9, ["zoo:default"]), ("R10", r10_init, _LIB)]
+         ("R6", r6, _LIB), ("R7", r7, _LIB), ("R9", r9, ["zoo:default"]), ("R10", r10_init, _LIB), ("R11", r11, _LIB)]
